@@ -476,6 +476,7 @@ class SocketModule:
     TCP_NODELAY = 1
     SOL_SOCKET = 1
     SO_REUSEADDR = 2
+    SHUT_RD, SHUT_WR, SHUT_RDWR = 0, 1, 2
     error = OSError
     gaierror = gaierror
 
